@@ -110,3 +110,16 @@ func (s ScopeSet) String() string {
 	sort.Strings(l)
 	return "{" + strings.Join(l, " ") + "}"
 }
+
+// pullOnly keeps what an anonymous token may grant: the pull action of every
+// repository asked for (a wildcard shrinks to pull).
+func (s ScopeSet) pullOnly() ScopeSet {
+	out := ScopeSet{}
+	for k := range s {
+		p := strings.Split(k, "\x00")
+		if len(p) == 3 && p[0] == "repository" && (p[2] == "pull" || p[2] == "*") {
+			out[p[0]+"\x00"+p[1]+"\x00pull"] = struct{}{}
+		}
+	}
+	return out
+}
